@@ -38,7 +38,9 @@ type scase struct {
 	L  string `json:"l"`
 	// B names the absolute instant that model time 0 is mapped to for the mode operations ("" = an
 	// ordinary instant in 2023; "zero" = the zero time.Time 0001-01-01T00:00:00Z; "unix" = the Unix
-	// epoch, whose Timestamp proto has all fields zero). The operations must not depend on it.
+	// epoch, whose Timestamp proto has all fields zero; "denorm" = the ordinary instant, but every start time
+	// is handed over as a DENORMALISED Timestamp proto {seconds+1, nanos-1e9}, which AsTime() reads as the
+	// same instant). The operations must not depend on it.
 	B string `json:"b,omitempty"`
 }
 
@@ -58,7 +60,7 @@ func (c scase) line() string {
 }
 
 var segOps = map[string]bool{"active": true, "magat": true, "maxafter": true, "cut": true, "shift": true, "mactive": true,
-	"mmagat": true, "mmaxafter": true, "mcut": true, "mshift": true, "mminat": true, "dur": true, "max": true, "summag": true, "sum": true, "msum": true}
+	"cuts": true, "mmagat": true, "mmaxafter": true, "mcut": true, "mshift": true, "mminat": true, "dur": true, "max": true, "summag": true, "sum": true, "msum": true}
 
 // ---- plain values (the harness's own representation; the oracle works on these only) -----------
 
@@ -200,7 +202,11 @@ var bases = map[string]time.Time{
 	"":     time.Unix(1_700_000_000, 0).UTC(),
 	"zero": {},                      // time.Time{}: IsZero() is true exactly here
 	"unix": time.Unix(0, 0).UTC(), // timestamppb.Timestamp{} (seconds 0, nanos 0)
+	"denorm": time.Unix(1_700_000_000, 0).UTC(),
 }
+
+// denormStarts: build start times as denormalised Timestamp protos (set by useBase).
+var denormStarts bool
 
 var base = bases[""]
 
@@ -210,6 +216,7 @@ func (c scase) useBase() {
 		panic("unknown epoch family " + c.B)
 	}
 	base = b
+	denormStarts = c.B == "denorm"
 }
 
 func at(ns int64) time.Time { return base.Add(time.Duration(ns)) }
@@ -281,6 +288,9 @@ func guardMode(m md) *guardedMode {
 	mode := &traits.ElectricMode{Id: "m1", Title: "t", Segments: g.arg()}
 	if m.hasStart {
 		mode.StartTime = timestamppb.New(at(m.start))
+		if denormStarts {
+			mode.StartTime = &timestamppb.Timestamp{Seconds: mode.StartTime.Seconds + 1, Nanos: mode.StartTime.Nanos - 1_000_000_000}
+		}
 	}
 	return &guardedMode{mode: mode, clone: proto.Clone(mode).(*traits.ElectricMode), g: g}
 }
@@ -334,6 +344,42 @@ func showPBSegs(l []*traits.ElectricMode_Segment) string {
 		p[i] = showPBSeg(s)
 	}
 	return strings.Join(p, ",")
+}
+
+// parseShaped splits "mag/len/shape" into the bare segment and its Fixed shape (if set).
+func parseShaped(s string) (seg sg, shape int64, has bool) {
+	i := strings.LastIndex(s, "/")
+	if i < 0 {
+		panic("bad shaped segment " + s)
+	}
+	seg = parseSg(s[:i])
+	if s[i+1:] == "n" {
+		return seg, 0, false
+	}
+	return seg, mustInt(s[i+1:]), true
+}
+
+func showPBSegS(s *traits.ElectricMode_Segment) string {
+	if s == nil {
+		return "nil"
+	}
+	switch sh := s.Shape.(type) {
+	case nil:
+		return showPBSeg(s) + "/n"
+	case *traits.ElectricMode_Segment_Fixed:
+		return showPBSeg(s) + "/" + showMag(sh.Fixed)
+	default:
+		return showPBSeg(s) + "/?"
+	}
+}
+
+// consumption: what a segment stands for — its Fixed shape if set, else its magnitude ("if none set assume
+// fixed = magnitude").
+func consumption(s *traits.ElectricMode_Segment) float32 {
+	if f, ok := s.Shape.(*traits.ElectricMode_Segment_Fixed); ok {
+		return f.Fixed
+	}
+	return s.Magnitude
 }
 
 func showPBMode(m *traits.ElectricMode) string {
@@ -419,6 +465,18 @@ func (c scase) runCode() (o outcome) {
 			g := guard([]sg{parseSg(c.L)})
 			o.before, o.after, o.ok = segmentpb.Cut(d, g.full[0])
 			o.text = showPBSeg(o.before) + "|" + showPBSeg(o.after) + "|" + strconv.FormatBool(o.ok)
+			o.mutated = g.changed()
+		case "cuts":
+			// a segment WITH its shape oneof: mag/len/shape, shape = "n" (not set) or the Fixed value
+			d := time.Duration(mustInt(c.D))
+			s, shape, has := parseShaped(c.L)
+			g := guard([]sg{s})
+			if has {
+				g.full[0].Shape = &traits.ElectricMode_Segment_Fixed{Fixed: float32(shape)}
+				g.clone[0] = proto.Clone(g.full[0]).(*traits.ElectricMode_Segment)
+			}
+			o.before, o.after, o.ok = segmentpb.Cut(d, g.full[0])
+			o.text = showPBSegS(o.before) + "|" + showPBSegS(o.after) + "|" + strconv.FormatBool(o.ok)
 			o.mutated = g.changed()
 		case "sum":
 			ls := parseSgLists(c.L)
@@ -584,6 +642,31 @@ func stepAt(l []sg, t int64) (mag int64, ok bool, idx int) {
 	return 0, false, len(l)
 }
 
+// stepAtOff is the step function of l at instant x for a list placed at instant start: like stepAt at
+// x-start, but exact also when that difference does not fit an int64 (then x lies before every, or
+// after every, breakpoint of a list of total length < 2^63).
+func stepAtOff(l []sg, x, start int64) (mag int64, ok bool, idx int) {
+	if d, fits := subOK(x, start); fits {
+		return stepAt(l, d)
+	}
+	if x < start {
+		return 0, false, 0
+	}
+	sp, _, inf := spans(l)
+	if inf {
+		last := sp[len(sp)-1]
+		return last.mag, true, last.idx
+	}
+	return 0, false, len(l)
+}
+
+// span: how far apart two instants are, false when the difference does not fit an int64 or exceeds
+// the window within which the sampling monitors walk every nanosecond.
+func nearby(a, b int64) bool {
+	d, ok := subOK(a, b)
+	return ok && abs(d) <= 1<<20 && d != math.MinInt64
+}
+
 // horizon is a time after which every step function in ls is constant.
 func horizon(ls ...[]sg) int64 {
 	var h int64
@@ -633,7 +716,7 @@ func bestFrom(l []sg, from int) (best int64, found bool) {
 	return
 }
 
-var opName = map[string]string{"active": "ActiveAt", "magat": "MagnitudeAt", "maxafter": "MaxAfter", "cut": "Cut", "shift": "Shift",
+var opName = map[string]string{"active": "ActiveAt", "magat": "MagnitudeAt", "maxafter": "MaxAfter", "cut": "Cut", "cuts": "Cut", "shift": "Shift",
 	"dur": "Duration", "max": "Max", "summag": "SumMagnitude", "sum": "Sum", "mactive": "modepb.ActiveAt", "mmagat": "modepb.MagnitudeAt",
 	"mmaxafter": "modepb.MaxSegmentAfter", "mcut": "modepb.Cut", "mshift": "modepb.Shift", "msum": "modepb.Sum", "mminat": "modepb.MinAt"}
 
@@ -665,7 +748,22 @@ func (c scase) monitor(m *lib.Monitor, o outcome) {
 			mode := parseMd(c.L)
 			l = mode.segs
 			if mode.hasStart {
-				d = mustInt(c.D) - mode.start
+				var fits bool
+				if d, fits = subOK(mustInt(c.D), mode.start); !fits {
+					// t.Sub(start) does not fit a Duration: the index is that of an instant before / after every
+					// breakpoint; the elapsed time is negative before the start, and after it what it is at any
+					// offset beyond the end of the list
+					m.Count("far-instants/" + c.Op)
+					_, _, wantIdx := stepAtOff(l, mustInt(c.D), mode.start)
+					okEl := o.ints[0] < 0
+					if mustInt(c.D) > mode.start {
+						okEl = fmt.Sprintf("%d|%d", o.ints[0], o.ints[1]) == activeOracle(l, math.MaxInt64)
+					}
+					if int(o.ints[1]) != wantIdx || !okEl {
+						bad("wrong-segment", name+" does not return the segment active at t for instants more than 2^63 ns apart", fmt.Sprintf("index %d", wantIdx), o.text)
+					}
+					return
+				}
 			}
 		}
 		want := activeOracle(l, d)
@@ -682,7 +780,11 @@ func (c scase) monitor(m *lib.Monitor, o outcome) {
 			mode := parseMd(c.L)
 			l = mode.segs
 			if mode.hasStart {
-				d = mustInt(c.D) - mode.start
+				mag, ok, _ := stepAtOff(l, mustInt(c.D), mode.start)
+				if want := fmt.Sprintf("%d|%v", mag, ok); o.text != want {
+					bad("not-step-function", name+" differs from the step function of the segments", want, o.text)
+				}
+				return
 			}
 		}
 		mag, ok, _ := stepAt(l, d)
@@ -708,11 +810,11 @@ func (c scase) monitor(m *lib.Monitor, o outcome) {
 		case "mmaxafter":
 			mode := parseMd(c.L)
 			l = mode.segs
-			var d int64
 			if mode.hasStart {
-				d = mustInt(c.D) - mode.start
+				_, _, from = stepAtOff(l, mustInt(c.D), mode.start)
+			} else {
+				_, _, from = stepAt(l, 0)
 			}
-			_, _, from = stepAt(l, d)
 		}
 		best, found := bestFrom(l, from)
 		idx := int(o.ints[0])
@@ -739,6 +841,35 @@ func (c scase) monitor(m *lib.Monitor, o outcome) {
 		}
 		if o.text != strconv.FormatInt(want, 10) {
 			bad("wrong-total", "SumMagnitude is not the sum of the magnitudes", strconv.FormatInt(want, 10), o.text)
+		}
+	case "cuts":
+		// magnitudes and lengths: exactly the judgement of the unshaped Cut
+		seg, shape, has := parseShaped(c.L)
+		scase{"cut", c.D, showSg(seg), c.B}.monitor(m, outcome{text: showPBSeg(o.before) + "|" + showPBSeg(o.after) + "|" + strconv.FormatBool(o.ok),
+			before: o.before, after: o.after, ok: o.ok})
+		// the shape: every part stands for the same consumption as the segment it was cut from. Recorded
+		// exception (C18_cut_shape_unbounded_before; outside the step function of magnitudes): the `before`
+		// part of a length-less segment is built without the segment's shape.
+		want := float32(seg.mag)
+		if has {
+			want = float32(shape)
+		}
+		d := mustInt(c.D)
+		for i, part := range []*traits.ElectricMode_Segment{o.before, o.after} {
+			if part == nil {
+				continue
+			}
+			if i == 0 && seg.inf && d > 0 {
+				if consumption(part) != want {
+					m.Count("cuts/before-of-length-less-segment-loses-Fixed-shape (recorded, not a violation)")
+				}
+				continue
+			}
+			if got := consumption(part); got != want {
+				bad("shape-changed", "a part returned by Cut stands for a different consumption (Fixed shape, else magnitude) than the segment",
+					fmt.Sprint(want), fmt.Sprintf("%v (%s)", got, o.text))
+				break
+			}
 		}
 	case "cut":
 		s, d := parseSg(c.L), mustInt(c.D)
@@ -834,6 +965,12 @@ func (c scase) monitor(m *lib.Monitor, o outcome) {
 		if len(mode.segs) == 0 {
 			return // documented special case (mode, mode, true); the function is 0 everywhere
 		}
+		if !nearby(x, st) {
+			// the sampling below walks every ns between start and t; instants further apart are tied to the
+			// model (saturating Sub, C18_modes_int64_cut / C18_modes_saturation_witness) but not sampled
+			m.Count("excluded:far-instants/mcut")
+			return
+		}
 		h := st + horizon(mode.segs) + 3
 		if x > h {
 			h = x + 3
@@ -897,11 +1034,11 @@ func (c scase) monitor(m *lib.Monitor, o outcome) {
 			return
 		}
 		val := func(mo md) int64 {
-			var d int64
 			if mo.hasStart {
-				d = x - mo.start
+				v, _, _ := stepAtOff(mo.segs, x, mo.start)
+				return v
 			}
-			v, _, _ := stepAt(mo.segs, d)
+			v, _, _ := stepAt(mo.segs, 0)
 			return v
 		}
 		best := val(ms[0])
@@ -951,6 +1088,10 @@ func (c scase) monitor(m *lib.Monitor, o outcome) {
 		var all [][]sg
 		for _, mo := range ms {
 			all = append(all, mo.segs)
+		}
+		if any && !nearby(latest, earliest) {
+			m.Count("excluded:far-instants/msum")
+			return
 		}
 		h := latest + horizon(all...) + 3
 		for y := earliest - 2; y <= h+1; y++ {
@@ -1204,13 +1345,16 @@ func randMd(r *rand.Rand, noStart bool) md {
 	return m
 }
 
-// randEpoch: where model time 0 sits for a mode case (1/5 the zero time.Time, 1/10 the Unix epoch).
+// randEpoch: where model time 0 sits for a mode case (1/5 the zero time.Time, 1/10 the Unix epoch, 1/10 an
+// ordinary instant with denormalised start-time protos).
 func randEpoch(r *rand.Rand) string {
 	switch r.Intn(10) {
 	case 0, 1:
 		return "zero"
 	case 2:
 		return "unix"
+	case 3:
+		return "denorm"
 	}
 	return ""
 }
@@ -1248,7 +1392,14 @@ func randSegCase0(r *rand.Rand) scase {
 		if r.Intn(4) == 0 {
 			s.inf, s.len = true, 0
 		}
-		return scase{"cut", itoa(s.len + int64(r.Intn(9)) - 6), showSg(s), ""}
+		d := itoa(s.len + int64(r.Intn(9)) - 6)
+		switch r.Intn(3) {
+		case 0:
+			return scase{"cuts", d, showSg(s) + "/n", ""}
+		case 1:
+			return scase{"cuts", d, showSg(s) + "/" + itoa(int64(r.Intn(9))-4), ""}
+		}
+		return scase{"cut", d, showSg(s), ""}
 	case 6, 7:
 		l := randSgs(r)
 		d := aroundBreakpoints(r, l)
@@ -1394,7 +1545,7 @@ func runSeg(f lib.Flags, res *lib.Result, drv *lib.Driver) {
 	// K2: exhaustive small domain
 	k2 := res.Tie("segments-exhaustive-small", "K2",
 		"all lists of <=3 segments over mag {-1,0,1,2} x len {0,1,2,absent}: Duration, Max, SumMagnitude on each; ActiveAt, MagnitudeAt, MaxAfter, Shift for every d in -1..total+1 (Shift also -d); "+
-			"Cut of every segment at d in -1..4; Sum of all ordered pairs of lists of <=2 segments (quick) / plus all triples of lists of <=1 segment and pairs (<=3, <=1) (thorough); "+
+			"Cut of every segment at d in -1..4, unshaped and with the shape oneof unset / Fixed 0 / 2 / -3; Sum of all ordered pairs of lists of <=2 segments (quick) / plus all triples of lists of <=1 segment and pairs (<=3, <=1) (thorough); "+
 			"modepb read/Cut/Shift on lists of <=2 segments x start in {absent,0,2} x t in -1..total+3 (d in -3..3), modepb.Sum of all pairs of lists of <=1 segment and all triples over {e, 1/1, 2/i}, each x starts {absent,0,2}, modepb.MinAt of all pairs of lists of <=1 segment x t in -1..4 (the returned mode is compared only when the minimum is unique: it depends on map iteration order otherwise); the mode families again (lists of <=1 segment for read/Cut/Shift) with model time 0 placed on the zero time.Time and on the Unix epoch (start and query times at, before and after those instants); distinct = distinct request line + epoch; non-trivial = some list non-empty")
 	k2.Exhaustive = true
 	var cases []scase
@@ -1416,6 +1567,15 @@ func runSeg(f lib.Flags, res *lib.Result, drv *lib.Driver) {
 		if len(l) == 1 {
 			for d := int64(-1); d <= 4; d++ {
 				cases = append(cases, scase{"cut", itoa(d), showSg(l[0]), ""})
+			}
+		}
+	}
+	for _, l := range l1 {
+		if len(l) == 1 {
+			for d := int64(-1); d <= 4; d++ {
+				for _, shape := range []string{"n", "0", "2", "-3"} {
+					cases = append(cases, scase{"cuts", itoa(d), showSg(l[0]) + "/" + shape, ""})
+				}
 			}
 		}
 	}
@@ -1500,7 +1660,7 @@ func runSeg(f lib.Flags, res *lib.Result, drv *lib.Driver) {
 	// K1: the property's random domain
 	k1 := res.Tie("segments-random", "K1",
 		"random lists of 0-6 segments (magnitudes -3..4 with extra zeros, lengths 0..5, a final length-less segment in 1/3 of the lists, rarely one in the middle), "+
-			"1-4 lists per Sum (rarely 0), d/t at a breakpoint or one ns either side (negated half the time for Shift), modes with (3/4) and without start times, 1-4 modes per modepb.Sum, model time 0 of a mode case on an ordinary instant (7/10), the zero time.Time (1/5) or the Unix epoch (1/10); "+
+			"1-4 lists per Sum (rarely 0), d/t at a breakpoint or one ns either side (negated half the time for Shift), Cut also on segments carrying the shape oneof (unset or Fixed -4..4), modes with (3/4) and without start times, 1-4 modes per modepb.Sum, model time 0 of a mode case on an ordinary instant (6/10), the zero time.Time (1/5), the Unix epoch (1/10) or an ordinary instant with denormalised start-time protos {seconds+1, nanos-1e9} (1/10); "+
 			"distinct = distinct request line + epoch; non-trivial = some list non-empty")
 	r := lib.NewRand(f.Seed + 18)
 	n := f.N(60000, 1500000)
@@ -1510,6 +1670,7 @@ func runSeg(f lib.Flags, res *lib.Result, drv *lib.Driver) {
 	}
 	compareSeg(k1, mon, drv, cases)
 	runSegEdges(f, res, drv, mon)
+	runModeFar(f, res, drv, mon)
 	runSegFloat(f, res, drv, mon)
 }
 
@@ -1656,6 +1817,72 @@ func runSegFloat(f lib.Flags, res *lib.Result, drv *lib.Driver, mon *lib.Monitor
 	}
 }
 
+// farInstant: an instant about 1.5 * 2^62 ns (219 years) before or after model time 0, so that two of them
+// on opposite sides are more than 2^63 ns apart (time.Time.Sub saturates) while each fits an int64.
+func farInstant(r *rand.Rand) int64 {
+	x := int64(3)<<61 + int64(r.Intn(7)) - 3
+	switch r.Intn(5) {
+	case 0:
+		x = math.MaxInt64/2 + int64(r.Intn(5)) - 1 // the difference of two of these is 2^63-1 +- a few ns
+	case 1:
+		x = int64(r.Intn(9)) - 2 // an ordinary instant: near/far mixes
+	}
+	if r.Intn(2) == 0 {
+		x = -x
+	}
+	return x
+}
+
+func randFarCase(r *rand.Rand) scase {
+	itoa := func(x int64) string { return strconv.FormatInt(x, 10) }
+	far := func() md {
+		m := md{segs: randSgs(r), hasStart: true, start: farInstant(r)}
+		return m
+	}
+	switch r.Intn(8) {
+	case 0, 1:
+		return scase{"mmagat", itoa(farInstant(r)), showMd(far()), ""}
+	case 2:
+		return scase{"mactive", itoa(farInstant(r)), showMd(far()), ""}
+	case 3:
+		return scase{"mmaxafter", itoa(farInstant(r)), showMd(far()), ""}
+	case 4:
+		n := 1 + r.Intn(3)
+		ms := make([]md, n)
+		for i := range ms {
+			ms[i] = far()
+		}
+		return scase{"mminat", itoa(farInstant(r)), showMds(ms), ""}
+	case 5, 6:
+		return scase{"mcut", itoa(farInstant(r)), showMd(far()), ""}
+	default:
+		n := 1 + r.Intn(3)
+		ms := make([]md, n)
+		for i := range ms {
+			ms[i] = far()
+			if r.Intn(5) == 0 {
+				ms[i].hasStart, ms[i].start = false, 0
+			}
+		}
+		return scase{"msum", "", showMds(ms), ""}
+	}
+}
+
+func runModeFar(f lib.Flags, res *lib.Result, drv *lib.Driver, mon *lib.Monitor) {
+	k := res.Tie("modes-far-instants", "K1",
+		"modes (random lists of 0-6 segments) whose start times and query instants lie about 219 years before or after model time 0 (and some ordinary ones), so that "+
+			"t.Sub(start) and start.Sub(earliest) exceed the int64 ns range and saturate: modepb.ActiveAt, MagnitudeAt, MaxSegmentAfter, MinAt (1-3 modes), Cut, Sum (1-3 modes); "+
+			"the model saturates like time.Time.Sub; the reading operations are also judged by the oracle (exact big-offset step function), Cut/Sum beyond 2^20 ns are compared with the model only; "+
+			"distinct = distinct request line; non-trivial = some list non-empty")
+	r := lib.NewRand(f.Seed + 2929)
+	n := f.N(8000, 200000)
+	cases := make([]scase, n)
+	for i := range cases {
+		cases[i] = randFarCase(r)
+	}
+	compareSeg(k, mon, drv, cases)
+}
+
 func runSegEdges(f lib.Flags, res *lib.Result, drv *lib.Driver, mon *lib.Monitor) {
 	k := res.Tie("segments-int64-edges", "K1",
 		"lists of 1-3 segments with lengths from {2^61, 2^62-1, 2^62, 2^62+1, 2^63-6, 2^63-2, 2^63-1 (built as a saturating Duration proto), 0, 1, 3}, optionally a length-less tail, "+
@@ -1683,13 +1910,28 @@ func compareSeg(t *lib.Tie, mon *lib.Monitor, drv *lib.Driver, cases []scase) {
 		for i, c := range part {
 			lines[i] = c.line()
 		}
-		model, err := drv.Batch(lines)
+		// the model answers are computed by the driver process while the real code runs here
+		type batch struct {
+			model []string
+			err   error
+		}
+		done := make(chan batch, 1)
+		go func() {
+			model, err := drv.Batch(lines)
+			done <- batch{model, err}
+		}()
+		outs := make([]outcome, len(part))
+		for i, c := range part {
+			outs[i] = c.runCode()
+		}
+		b := <-done
+		model, err := b.model, b.err
 		if err != nil {
 			t.Fail(err)
 			return
 		}
 		for i, c := range part {
-			o := c.runCode()
+			o := outs[i]
 			key := c.key()
 			nontrivial := strings.ContainsAny(c.L, "/")
 			if c.B != "" {
